@@ -1,15 +1,16 @@
 #!/bin/bash
 # usage: tools/seedtest.sh <patch.diff> <tier> <check> [<check>...]
-# applies the seeded change to /repo, runs the checks, and always reverts.
+# Runs the checks against a scratch worktree of /repo HEAD with the seeded change applied
+# (PYCDLIB_VERIF_REPO points the harness at it); /repo itself is not touched.  No evidence is written.
 patch="$1"; tier="$2"; shift 2
-cd /repo || exit 2
-if ! git diff --quiet; then echo "repo not clean"; exit 2; fi
-if ! git apply --check "$patch" 2>/dev/null; then echo "PATCH DOES NOT APPLY: $patch"; exit 3; fi
-git apply "$patch"
-trap 'git -C /repo checkout -- . ' EXIT
+wt=/tmp/st_$$
+git -C /repo worktree add -q --detach $wt HEAD || exit 2
+trap "git -C /repo worktree remove --force $wt" EXIT
+if ! git -C $wt apply --check "$patch" 2>/dev/null; then echo "PATCH DOES NOT APPLY: $patch"; exit 3; fi
+git -C $wt apply "$patch"
 cd /verif
 for c in "$@"; do
-  out=$(VERIF_NO_EVIDENCE=1 ./check "$c" --tier "$tier" 2>&1)
+  out=$(PYCDLIB_VERIF_REPO=$wt VERIF_NO_EVIDENCE=1 VERIF_REPLAY_DIR=${VERIF_REPLAY_DIR:-/tmp/seedreplays} ./check "$c" --tier "$tier" 2>&1)
   rc=$?
   echo "== $c rc=$rc $(echo "$out" | grep -c '^VIOLATION') violation line(s)"
   echo "$out" | grep -A3 '^VIOLATION' | head -12
